@@ -1835,6 +1835,64 @@ def rule_signature_contract(ctx, R: str, large: bool = False):
     ctx.check(R, not problems, mm.node, mm, label, '; '.join(problems[:3]))
 
 
+# ------------------------------ fixed-range producers feeding a scale-imposing consumer
+def rule_fixed_range_pipeline(ctx, R: str):
+  """SOFTMAX / LOGISTIC / TANH write with parameters that are hard-coded in their kernels. When the only reader
+  imposes other parameters on the same tensor (a CONCATENATION that shares its output scale with a wide-range second
+  input), the quantized graph must still give the fixed-range operator an output tensor with the kernel's parameters -
+  a requantize goes in between; storing the tensor with the reader's parameters makes the runtime reject the model."""
+  from sa import consteval  # pylint: disable=g-import-not-at-top
+  from sa.consteval import Ext  # pylint: disable=g-import-not-at-top
+  from sa.ndarr import NdArr  # pylint: disable=g-import-not-at-top
+  rs = ctx.rule(R, 'a fixed-range operator (SOFTMAX / LOGISTIC / TANH) keeps the kernel\'s output parameters when its only reader imposes others (whole pipeline, static range)', floor=1)
+  tg = ctx.repo.func('transformation_performer:TransformationPerformer.transform_graph')
+  ctx.instance(R)
+  TT = consteval.schema_enum('TensorType')
+  tv = lambda t: t.value if isinstance(t, Ext) else t
+  vals = lambda x: [float(v) for v in (x.data if isinstance(x, NdArr) else (x if isinstance(x, (list, tuple)) else [x]))]
+  rs.exhaustive = True
+  for opname in ('SOFTMAX', 'LOGISTIC', 'TANH'):
+    g = ([('x', 0), ('s', 0), ('b', 0), ('out', 0, (1, 4))], [(opname, opname, [0], [1]), ('CONCATENATION', 'CONCATENATION', [1, 2], [3])], [0, 2], [3])
+    wide = {'content': lambda n, k: NdArr((1, 2), [40 * k, -60 * k], 'f') if n in ('b', 'out') else (NdArr((1, 2), [0.25, 0.75], 'f') if n == 's' else None)}
+    m, why = _pipeline_multi(ctx, R, [g], [('.*', '*', 'srq')], data=wide)
+    label = f'{opname} -> CONCATENATION(s, b) with a wide-range b, everything static range'
+    if m is None:
+      ctx.check(R, False, tg.node, tg, label, why)
+      continue
+    sg = m.fields['subgraphs'][0]
+    T, O = sg.fields['tensors'], sg.fields['operators']
+    op = next((o for o in O if o.fields['label'] == opname), None)
+    cat = next((o for o in O if o.fields['label'] == 'CONCATENATION'), None)
+    if op is None or cat is None:
+      ctx.check(R, False, tg.node, tg, label, 'an operator disappeared')
+      continue
+    out_t = T[op.fields['outputs'][0]]
+    q = out_t.fields['quantization']
+    want = oracles.FIXED_PARAMS[(opname, 8)]
+    try:
+      sc, zp = vals(q.fields['scale']), vals(q.fields['zeroPoint'])
+    except (AttributeError, TypeError):
+      ctx.check(R, False, tg.node, tg, label, f'not decided: parameters of {out_t.fields["name"]} are not folded ({q!r})')
+      continue
+    ok = tv(out_t.fields['type']) == TT['INT8'] and len(sc) == 1 and abs(sc[0] - want[0]) < 1e-12 and zp == [float(want[1])]
+    ctx.check(R, ok, tg.node, tg, f'{label}: {opname} writes {out_t.fields["name"]} with scale {sc}, zero point {zp}',
+              f'the kernel of {opname} only produces scale {want[0]}, zero point {want[1]}: its output tensor must carry exactly these parameters (the runtime refuses the model otherwise)')
+    # the CONCATENATION reads INT8 tensors that all carry ITS output parameters, and everything is produced before it is read
+    cq = T[cat.fields['outputs'][0]].fields['quantization']
+    for k_ in cat.fields['inputs']:
+      iq = T[k_].fields['quantization']
+      same = iq is not None and cq is not None and vals(iq.fields['scale']) == vals(cq.fields['scale']) and vals(iq.fields['zeroPoint']) == vals(cq.fields['zeroPoint'])
+      ctx.check(R, tv(T[k_].fields['type']) == TT['INT8'] and same, tg.node, tg, f'{label}: CONCATENATION reads {T[k_].fields["name"]}',
+                'every input of a CONCATENATION must be INT8 with the parameters of its output (a requantize is needed in front of it)')
+    produced = set(sg.fields['inputs']) | {i for i, t in enumerate(T) if isinstance(t.fields['buffer'], int) and t.fields['buffer'] != 0 and m.fields['buffers'][t.fields['buffer']].fields['data'] is not None}
+    order_ok = True
+    for o in O:
+      if any(x != -1 and x not in produced for x in o.fields['inputs']):
+        order_ok = False
+      produced.update(o.fields['outputs'])
+    ctx.check(R, order_ok, tg.node, tg, f'{label}: execution order', 'an operator reads a tensor before it is produced')
+
+
 # ------------------------------------------- tied constants through the pipeline
 def rule_shared_constant_pipeline(ctx, R: str):
   """C15 on label models: constants that share one buffer (two tensors of one
